@@ -291,13 +291,14 @@ end ops
 def isHexChar (ch : Char) : Bool :=
   ('0' ≤ ch && ch ≤ '9') || ('a' ≤ ch && ch ≤ 'f') || ('A' ≤ ch && ch ≤ 'F')
 
+/-- go-ethereum `has0xPrefix` + strip. -/
+def stripHexPrefix : List Char → List Char
+  | c1 :: c2 :: r => if c1 = '0' ∧ (c2 = 'x' ∨ c2 = 'X') then r else c1 :: c2 :: r
+  | l => l
+
 /-- go-ethereum `common.IsHexAddress` on the characters of the string. -/
 def isHexAddr (l : List Char) : Bool :=
-  let body := match l with
-    | '0' :: 'x' :: r => r
-    | '0' :: 'X' :: r => r
-    | _ => l
-  body.length == 40 && body.all isHexChar
+  (stripHexPrefix l).length == 40 && (stripHexPrefix l).all isHexChar
 
 /-- `address.FormatAddrKey`: hex addresses are lower-cased (`FormatEthAddress`), everything else
 is kept.  (The eth driver's `formatAddr` lower-cases when no crypto context is installed or
